@@ -57,3 +57,12 @@ pub axiom fn axiom_slice_u8_len_bound(v: &[u8])
 /// A-std: core::cmp::min on usize.
 pub assume_specification<T: Ord> [ core::cmp::min ] (a: T, b: T) -> (r: T)
     ensures <T as OrdSpec>::obeys_cmp_spec() ==> (r == (if <T as OrdSpec>::cmp_spec(&b, &a) == Ordering::Less { b } else { a }));
+
+/// A-std: Vec::extend appends the elements yielded by the argument; for a Vec argument these
+/// are its elements in order.
+pub uninterp spec fn vx_into_seq<T, I>(i: I) -> Seq<T>;
+pub assume_specification<T, A, I> [ <std::vec::Vec<T, A> as std::iter::Extend<T>>::extend ] (v: &mut std::vec::Vec<T, A>, it: I)
+    where A: std::alloc::Allocator, I: std::iter::IntoIterator<Item = T>,
+    ensures final(v)@ == old(v)@ + vx_into_seq::<T, I>(it);
+pub broadcast axiom fn axiom_into_seq_vec<T>(v: Vec<T>)
+    ensures #[trigger] vx_into_seq::<T, Vec<T>>(v) == v@;
